@@ -39,6 +39,7 @@ type Engine struct {
 	srcHash   map[string]string
 
 	harnessFiles map[string]bool
+	overlay      map[string][]byte
 }
 
 const repoModule = "github.com/philpearl/avro"
@@ -72,7 +73,7 @@ func LoadEngine(repoDir string, overlay map[string][]byte) (*Engine, error) {
 	e := &Engine{
 		prog: prog, pkgs: pkgs, spkgs: map[string]*ssa.Package{}, repoPkgs: map[*ssa.Package]bool{},
 		sizes: types.SizesFor("gc", "amd64"), fset: prog.Fset,
-		offCache: map[*types.Struct][]int64{}, harnessFiles: map[string]bool{},
+		offCache: map[*types.Struct][]int64{}, harnessFiles: map[string]bool{}, overlay: overlay,
 	}
 	for _, p := range prog.AllPackages() {
 		e.spkgs[p.Pkg.Path()] = p
